@@ -186,6 +186,31 @@ static void queue_blocking(Src& s) {
         q.wait_and_pop(e);
         VP_CHECK(e.seq == static_cast<int>(i), "queue-order", "FIFO order broken: got " << e.seq << " expected " << i);
     }
+    // second half: the queue is filled again, producers block at it (not more of them than the queue has room for), then the queue is
+    // shut down and nobody pops any more. shutdown() empties the queue, so each of these producers finds room and has to come back; one
+    // that stays in push() for good keeps its thread (and whoever joins it) waiting forever. No timer of the harness is involved: the
+    // producers are simply joined; if one never returns every thread of the process sleeps in a futex wait and the engine reports the
+    // deadlock. (Not asserted: what is in the queue afterwards -- a push that was already waiting when shutdown() came does store its
+    // element -- and what happens with more blocked producers than the bound: the ones that find the queue full again stay blocked in the
+    // unchanged library, which the property's statement, speaking of consumers only, does not cover; see DESIGN, observations.)
+    if (s.boolean()) {
+        for (size_t i = 0; i < B; ++i) q.push(Elem{1, static_cast<int>(i)});
+        const int P = 1 + static_cast<int>(s.draw(B));
+        std::atomic<int> back{0};
+        std::vector<std::thread> blocked;
+        for (int p = 0; p < P; ++p) {
+            blocked.emplace_back([&q, &back, p] {
+                q.push(Elem{2 + p, 0});
+                ++back;
+            });
+        }
+        std::this_thread::sleep_for(std::chrono::milliseconds(10 + s.draw(30)));
+        const int early2 = back.load();
+        q.shutdown();
+        for (auto& th : blocked) th.join();
+        VP_CHECK(early2 == 0, "queue-bound", early2 << " of " << P << " pushes into a full queue (bound " << B << ") returned although nothing was popped");
+        vp::count("queue_shutdown_with_blocked_producers");
+    }
     vp::count("queue_blocking");
     vp::nontrivial(vp::hash_str("blocking") ^ B ^ perturb::cfg().seed.load());
 }
